@@ -58,6 +58,16 @@ def run(F, R, tier):
             ok = bool(oo) and all(o[0] == "call" and (o[1] in (ID + "::parse", ID + "::try_from_core") or re.search(r"IotaDID as core::convert::TryFrom<identity_did::did::CoreDID>>::try_from$|TryFrom::try_from$", o[1])) for o in oo)
             r1.site("%s → %s" % (L.short(f_), sorted(L.short(o[1]) for o in oo if o[0] == "call")))
             r1.require(ok, (f_, "via-gate"), "%s does not delegate to parse/try_from_core" % L.short(f_))
+    # "without path, query or fragment" is inherited from the CoreDID gate (C10-R1): re-established here on the same facts
+    CDID = "identity_did::did::CoreDID"
+    for (p, bi, s_) in F.constructions(CDID):
+        base = p.split("::{closure#")[0]
+        body = F.mir(base, follow_async=False)
+        ok = False
+        if body is not None and p == base:
+            ok, _, _ = body.must_pass_success(CDID + "::check_validity", [bi])
+        r1.site("CoreDID(..) constructed in %s under check_validity: %s" % (L.short(base), ok))
+        r1.require(ok, (base, "core-gate"), "the CoreDID underlying every IotaDID is constructed in %s without check_validity: an IotaDID could carry a path, query or fragment" % L.short(base))
     # ref-cast users
     for (p, bi, t) in F.callers(ID + "::from_inner_ref_unchecked"):
         r1.site("ref-cast &CoreDID → &IotaDID in %s" % L.short(p), t["sp"])
@@ -87,7 +97,7 @@ def run(F, R, tier):
         r1.fail((base, "id-not-normalised"),
                 "%s builds an IotaDocument whose id is only checked with check_validity (which accepts `did:iota:iota:0x…` and upper-case hex) and never normalised; IotaDocument::id() ref-casts it to &IotaDID, so doc.id() != IotaDID::parse(same string) although network and tag agree" % L.short(base),
                 hh["value"]["sp"])
-    r1.floor(15)
+    r1.floor(16)
 
     # ------------------------------------------------------------------ R2 validity predicates and normal form
     r2 = R.rule("C17-R2", "T4+T7", "check_validity = method == \"iota\" ∧ tag is 32 hex-encoded bytes ∧ network name 1..=6 lowercase alphanumerics; normalize drops exactly the default network; components split at the first ':'")
